@@ -69,7 +69,8 @@ let predict (c : string) (obs : string) : string * string * bool =
          | a :: b :: c :: d :: _ -> (int_of_string a, b, c, d)
          | _ -> (0, "-", "?", "?")) in
       let obs_ids = if oseq = "-" then [] else List.map int_of_string (String.split_on_char ',' oseq) in
-      let cancel_m = if cancel = "-" then None else Some (int_of_string cancel) in
+      (* "pre": the context was cancelled before Run was called = cancelled after 0 items *)
+      let cancel_m = if cancel = "-" then None else if cancel = "pre" then Some 0 else Some (int_of_string cancel) in
       let bnd = (match bound cf.limit cf.passes (nat_of_int n) with Some b -> Some (int_of_nat b) | None -> None) in
       (* every model needs at most 3 steps per delivery plus 2n+6 (proved: c08_spec); 50x margin *)
       let fuel = nat_of_int (50 * ((max ocount (match bnd with Some b -> b | None -> 0)) + n + 2)) in
